@@ -1,6 +1,6 @@
 #!/usr/bin/env python3
 """Prints the prompt given to a fresh sub-agent that must break one property (no /verif knowledge)."""
-import json, sys
+import json, sys, glob
 pid = sys.argv[1]
 wt = sys.argv[2]
 outdir = sys.argv[3]
@@ -9,6 +9,16 @@ for l in open('/verif/properties.jsonl'):
     q = json.loads(l)
     if q['id'] == pid:
         p = q
+avoid = ""
+titles = []
+for d in sorted(glob.glob('/verif/seeded/%s-*' % pid)):
+    try:
+        titles.append(json.load(open(d + '/meta.json')).get('title', ''))
+    except Exception:
+        pass
+if titles:
+    avoid = "\nAVOID repeating these changes, which other people already made for this property (pick different mechanisms and, if possible, different files):\n" + "\n".join("  - " + t for t in titles if t) + "\n"
+suffix = sys.argv[4] if len(sys.argv) > 4 else ""
 print(f"""You are helping to evaluate a verification tool by producing realistic faulty variants ("seeded changes") of a Go library.
 
 The library is lachesis-base (Fantom's Lachesis aBFT DAG consensus: frame/root election, vector-clock forkless-cause index, gossip event ordering/fetching/streaming, flushable multi-DB key-value layer). You have your own scratch git worktree of it at {wt} (work ONLY there; never touch /repo or /verif, never read anything under /verif).
@@ -23,6 +33,7 @@ The property of the library that your change must BREAK:
   Quantified over: {p['quantifier']['text']}
   Code it is anchored in: {', '.join(p['anchors']['files'])}
 
+{avoid}
 Task: produce TWO different changes (different mechanism / different place) to the library's non-test source, each of which
   (a) still compiles, and the whole existing test suite still passes with it (run it and confirm — all packages),
   (b) makes the property false for some inputs / schedules / histories / crash points,
@@ -30,7 +41,7 @@ Task: produce TWO different changes (different mechanism / different place) to t
   (d) needs something SPECIFIC to manifest: a particular interleaving, a crash or fault at a particular point, a multi-step sequence of operations, an unusual input (forks, particular weights, a specific cache size, boundary keys ...), or two cooperating sites that each look fine alone. NOT something ordinary use exposes at once (if nearly every run of the library would misbehave, it is too easy — make it subtler).
   Do not change test files, do not change public API signatures, do not add dependencies.
 
-For each change i in {{1,2}} deliver, under {outdir}/{pid}-i/ :
+For each change i in {{1,2}} deliver, under {outdir}/{pid}{suffix}-i/ :
   - patch.diff : `git diff` of the change against the worktree's HEAD (library source only; must apply with `git apply` to a clean checkout)
   - a demonstration: a Go test file (demo_test.go, note in meta which package directory it must be copied into) or a small program, that FAILS (or prints a clear wrong result) with the change applied and PASSES without it. Confirm both directions yourself by running it.
   - meta.json : {{"property":"{pid}","title": short name of the change,"what_breaks": one paragraph,"needs_to_manifest": what specific condition triggers it,"demo": how to run the demonstration (exact commands, which dir the test file goes to),"suite_passes": true/false as you observed}}
